@@ -147,6 +147,14 @@ add('C13', 'exploration',
     'nothing and leave the encoder snapshot unchanged, and later blocks re-using the same fields must still decode.',
     'Whether an invalid call should have been refused is C08/C14 business; an accepted call is judged as a successful call.')
 
+add('C07', 'exploration',
+    'runtime monitoring: online per-stream event automaton (trace specification) over receive_data return values',
+    'A role-specific event automaton per stream, the role alphabet, at-most-one StreamReset, and identity of related-event '
+    'links are checked on every returned event list while a hostile peer produces legal traffic mixed with illegal '
+    'productions (DATA before HEADERS, unpromised even streams, second final response, frames after END_STREAM / RST_STREAM, '
+    'WINDOW_UPDATE in between) and the application makes local calls (1xx, responses, pushes, resets) in between.',
+    'Events of a receive_data call that raised are not part of the trace (the caller never sees them).')
+
 NOT_BUILT_REASON = 'check not built yet in this session (planned in DESIGN.md; no verdict claimed)'
 
 def main():
